@@ -15,7 +15,7 @@ PROFILE = {'weights': {'rp_delete': 10, 'inv_delete': 8, 'inv_delete_all': 4, 'r
                        'rc_rename': 2},
            'n_rps': 6}
 
-RACES = {'n_rps': 6, 'setup_ops': 22, 'picker': 'tree', 'model': False,
+RACES = {'n_rps': 6, 'setup_ops': 22, 'picker': 'tree', 'model': True,
          'scenarios': ['create-vs-delete', 'move-vs-delete', 'delete-vs-alloc', 'delete-vs-inv', 'delete-vs-traits',
                        'invdelete-vs-alloc', 'rcdelete-vs-inv', 'traitdelete-vs-use'],
          'setup_weights': {'rp_create': 30, 'rp_update': 6, 'rp_delete': 1, 'alloc_put': 12, 'inv_set': 14, 'rc_rename': 0,
